@@ -1,8 +1,11 @@
 package props
 
 import (
+	"fmt"
 	"sort"
 	"strings"
+
+	jd "github.com/josephburnett/jd/v2"
 
 	"verifharness/gen"
 	"verifharness/mon"
@@ -124,11 +127,11 @@ func init() {
 	p := &mon.Property{
 		ID: "C01",
 		Rule: "cases are (a, b, option set): seeded random document pairs (b = structured mutation of a three times in four) per option set, " +
-			"exhaustive array pairs over {1,2,3} wrapped at four depths, the FuzzJd corpus, void on either side, YAML-read inputs; " +
+			"exhaustive array pairs over {1,2,3} wrapped at four depths, the FuzzJd corpus, void on either side, YAML-read inputs, pairs differing in several sibling members below a chain of 1-9 object keys; " +
 			"non-trivial = the diff has at least one hunk; distinct = distinct (a, b, options) texts",
 		Floors: map[string]int{
 			"diff_nonempty": 5000, "hunks>=2": 1000, "index_shift(>=2 hunks in one array)": 300, "hunk_nested_arrays": 300,
-			"hunk_set_multi": 100, "hunk_keyed_member": 100, "hunk_merge": 100, "hunk_multiset": 100, "void_involved": 20,
+			"hunk_set_multi": 100, "hunk_keyed_member": 100, "hunk_merge": 100, "hunk_multiset": 100, "void_involved": 20, "deep_chain_pairs": 5000, "yaml_read_pairs": 3000,
 		},
 		Assumptions: []string{
 			"jd values are built with jd's own ReadJsonString / ReadYamlString from generated text",
@@ -211,6 +214,55 @@ func init() {
 				c01Judge(c, ref.ToJSON(doc), " ", o)
 			default:
 				c01Judge(c, "", "  ", o)
+			}
+		},
+	})
+	for _, o := range []OptSet{OptNone, OptSetO, OptMset, OptMerge, OptSetMerge} {
+		o := o
+		p.Strata = append(p.Strata, mon.Stratum{
+			Name: "deep-chains/" + o.Name,
+			N:    qt(4000, 100000),
+			Run: func(c *mon.Ctx, i int) {
+				a, b := gen.DeepChainPair(c.R, gen.PDefault, o.Merge)
+				c.Feature("deep_chain_pairs")
+				c01Judge(c, ref.ToJSON(a), ref.ToJSON(b), o)
+			},
+		})
+	}
+	p.Strata = append(p.Strata, mon.Stratum{
+		Name: "yaml-read",
+		N:    qt(6000, 150000),
+		Run: func(c *mon.Ctx, i int) {
+			// the same round trip on documents read through jd's YAML reader
+			o := AllDiffOpts[i%len(AllDiffOpts)]
+			a, b := PairFor(c.R, o, gen.PDefault)
+			if ref.IsVoid(a) || ref.IsVoid(b) {
+				return
+			}
+			ay, by := ref.YamlEmit(a, ref.YBlockDouble), ref.YamlEmit(b, ref.YFlowDouble)
+			c.Input("a_yaml", ay)
+			c.Input("b_yaml", by)
+			c.Input("options", o.Name)
+			A, err1 := jd.ReadYamlString(ay)
+			B, err2 := jd.ReadYamlString(by)
+			if err1 != nil || err2 != nil {
+				c.Violation("ReadYamlString rejected generated YAML", map[string]any{"err_a": fmt.Sprint(err1), "err_b": fmt.Sprint(err2)})
+				return
+			}
+			c.Feature("yaml_read_pairs")
+			d := A.Diff(B, o.O()...)
+			if len(d) > 0 {
+				c.Nontrivial(joinKey("yaml", ay, by, o.Name))
+			}
+			A2, _ := jd.ReadYamlString(ay)
+			P, err := A2.Patch(d)
+			if err != nil || P == nil {
+				c.Violation("Patch(a, a.Diff(b)) failed on YAML-read documents: "+fmt.Sprint(err), map[string]any{"diff": ref.HunksString(Hunks(d))})
+				return
+			}
+			B2, _ := jd.ReadYamlString(by)
+			if !P.Equals(B2, o.O()...) || !ref.Eq(Plain(P), b, o.Reading) {
+				c.Violation("patched YAML-read document is not b", map[string]any{"diff": ref.HunksString(Hunks(d)), "patched": P.Json()})
 			}
 		},
 	})
